@@ -18,6 +18,7 @@ import DocsModel.Model.Session
 import DocsModel.Model.Coord
 import DocsModel.Model.Txn
 import DocsModel.Model.Swarm
+import DocsModel.Model.Live
 /-!
 Line-protocol driver: one output line per input line. The Rust harness pipes the same operation
 lines it applied to the real crate and compares the two output streams.
@@ -98,6 +99,13 @@ structure World where
   nodePolicy : List ((Nat × Bytes) × Tables.Policy) := []
   /-- acknowledged peer registrations per (node, document) since it was (re-)created, oldest first -/
   nodeRegs : List ((Nat × Bytes) × List Bytes) := []
+  /-- live actors (`Model/Live.lean`) -/
+  lives : List (Nat × Live.LState) := []
+  /-- what the store answers to `get_sync_peers` per (live actor, document): the registrations the live
+  actor made, folded by the bounded MRU step of C17 -/
+  liveRegs : List ((Nat × Bytes) × List Bytes) := []
+  /-- which fields of a live actor's lines are printed (the part of the handlers a property is about) -/
+  liveViews : List (Nat × String) := []
 
 namespace World
 
@@ -500,6 +508,145 @@ def showNodeReply (quiet : Bool) : DocNode.Reply → String
   | .errDefaultAuthor => "err:default-author"
   | .errNoDocument => "err:no-document"
 
+namespace LiveTok
+open Live
+
+def parseBytesList? (s : String) : Option (List Bytes) :=
+  if s = "-" then some [] else (s.splitOn ",").mapM Bytes.ofHex
+
+def parseIn? : List String → Option In
+  | ["start", ns, okk, known] => do pure (.startSync (← Bytes.ofHex ns) (← parseBool? okk) (← parseBytesList? known))
+  | ["leave", ns, kill] => do pure (.leave (← Bytes.ofHex ns) (← parseBool? kill))
+  | ["sub", ns, c] => do pure (.subscribe (← Bytes.ofHex ns) (← parseNat? c))
+  | ["dropchan", c] => do pure (.dropChan (← parseNat? c))
+  | ["nup", ns, p] => do pure (.neighborUp (← Bytes.ofHex ns) (← Bytes.ofHex p))
+  | ["ndown", ns, p] => do pure (.neighborDown (← Bytes.ofHex ns) (← Bytes.ofHex p))
+  | ["local", ns, e] => do pure (.localInsert (← Bytes.ofHex ns) (← Bytes.ofHex e))
+  | ["remote", ns, h, f, fv, sd, st, bc] => do
+    pure (.remoteInsert (← Bytes.ofHex ns) (← Bytes.ofHex h) (← Bytes.ofHex f) (← parseBool? fv) (← parseBool? sd)
+      (← parseNat? st) (← parseBool? bc))
+  | ["dlready", ns, h, okk] => do pure (.downloadReady (← Bytes.ofHex ns) (← Bytes.ofHex h) (← parseBool? okk))
+  | ["cready", ns, node, h, bc] => do
+    pure (.contentReady (← Bytes.ofHex ns) (← Bytes.ofHex node) (← Bytes.ofHex h) (← parseBool? bc))
+  | ["report", f, ns, heads, ours] => do
+    pure (.syncReport (← Bytes.ofHex f) (← Bytes.ofHex ns) (← Bytes.ofHex heads) (← parseHeads? ours))
+  | ["accept", ns, p] => do pure (.acceptRequest (← Bytes.ofHex ns) (← Bytes.ofHex p))
+  | ["dial", ns, p, r] => do pure (.dialRequest (← Bytes.ofHex ns) (← Bytes.ofHex p) (← parseNat? r))
+  | ["cfin", ns, p, r, "ok", recv, sent, heads] => do
+    pure (.connectFinished (← Bytes.ofHex ns) (← Bytes.ofHex p) (← parseNat? r)
+      (.ok (← parseNat? recv) (← parseNat? sent) (← parseHeads? heads)))
+  | ["cfin", ns, p, r, "already"] => do
+    pure (.connectFinished (← Bytes.ofHex ns) (← Bytes.ofHex p) (← parseNat? r) .abortAlready)
+  | ["cfin", ns, p, r, "err"] => do
+    pure (.connectFinished (← Bytes.ofHex ns) (← Bytes.ofHex p) (← parseNat? r) .err)
+  | ["afin", "ok", ns, p, recv, sent, heads] => do
+    pure (.acceptFinished (.ok (← Bytes.ofHex ns) (← Bytes.ofHex p) (← parseNat? recv) (← parseNat? sent) (← parseHeads? heads)))
+  | ["afin", "already"] => some (.acceptFinished .abortAlready)
+  | ["afin", "named", ns, p] => do pure (.acceptFinished (.errNamed (← Bytes.ofHex ns) (← Bytes.ofHex p)))
+  | ["afin", "unnamed"] => some (.acceptFinished .errUnnamed)
+  | _ => none
+
+def showEv : Ev → String
+  | .contentReady h => "content-ready:" ++ h.toHex
+  | .neighborUp p => "neighbor-up:" ++ p.toHex
+  | .neighborDown p => "neighbor-down:" ++ p.toHex
+  | .syncFinished p o r => "sync-finished:" ++ p.toHex ++ ":" ++ toString o ++ ":" ++
+      (match r with | some (a, b) => "ok:" ++ toString a ++ ":" ++ toString b | none => "failed")
+  | .pendingContentReady => "pending-content-ready"
+
+def insSorted (x : String) : List String → List String
+  | [] => [x]
+  | y :: ys => if x < y then x :: y :: ys else y :: insSorted x ys
+def sortStrings (l : List String) : List String := l.foldr insSorted []
+
+def joinOr (l : List String) : String := if l.isEmpty then "-" else ",".intercalate l
+
+/-- the fields a view shows: `all`, or the part of the handlers one property is about -/
+def inView (view field : String) : Bool :=
+  match view with
+  | "C04" => ["bcasts", "events", "reply", "docs", "topics"].contains field
+  | "C15" => ["downloads", "byhash", "byns", "missing", "providers", "docs"].contains field
+  | "C11" => ["dials", "reply", "slots", "docs"].contains field
+  | "C17" => ["peers", "reply"].contains field
+  | _ => true
+
+/-- the outputs of one step, per kind (the order across kinds is not observable) -/
+def showOuts (view : String) (outs : List Out) : String :=
+  let dials := outs.filterMap fun | .dial ns p r => some (ns.toHex ++ ":" ++ p.toHex ++ ":" ++ toString r) | _ => none
+  let bcasts := outs.filterMap fun | .broadcast ns nb pl => some (ns.toHex ++ ":" ++ showBool nb ++ ":" ++ pl.toHex) | _ => none
+  let dls := outs.filterMap fun | .download ns h n => some (ns.toHex ++ ":" ++ h.toHex ++ ":" ++ n.toHex) | _ => none
+  let chans := ((outs.filterMap fun | .event c _ => some c | _ => none).eraseDups)
+  let evs := sortStrings (chans.map fun c =>
+    toString c ++ "=" ++ "+".intercalate (outs.filterMap fun | .event c' ev => if c' = c then some (showEv ev) else none | _ => none))
+  let rep := outs.filterMap fun | .reply b => some ("reply:" ++ showBool b) | .acceptOutcome c => some ("accept:" ++ toString c) | _ => none
+  " ".intercalate (
+    (if inView view "dials" then ["dials=" ++ joinOr dials] else []) ++
+    (if inView view "bcasts" then ["bcasts=" ++ joinOr bcasts] else []) ++
+    (if inView view "downloads" then ["downloads=" ++ joinOr dls] else []) ++
+    (if inView view "events" then ["events=" ++ joinOr evs] else []) ++
+    (if inView view "reply" then [joinOr rep] else []))
+
+def showSt : Coord.St → String | .idle => "0" | .conn => "1" | .acc => "2"
+
+/-- the state as the hook's snapshots show it; `watch` = the (document, peer) slots to print -/
+def showState (view : String) (s : LState) (watch : List (Bytes × Bytes)) : String :=
+  let docs := sortStrings (s.docs.map fun d => d.ns.toHex ++ ":" ++ showBool d.mayEmit)
+  let topics := sortStrings (s.topics.map (·.toHex))
+  let bh := sortStrings (s.byHash.map fun (h, ns) => h.toHex ++ ":" ++ "+".intercalate (sortStrings (ns.map (·.toHex))))
+  let bn := sortStrings (s.byNs.map fun (n, hs) => n.toHex ++ ":" ++ "+".intercalate (sortStrings (hs.map (·.toHex))))
+  let missing := sortStrings (s.missing.map (·.toHex))
+  let prov := sortStrings (s.providers.map fun (h, n) => h.toHex ++ ":" ++ n.toHex)
+  let slots := watch.map fun (ns, p) => match s.slot? ns p with
+    | some (st, r) => showSt st ++ showBool r
+    | none => "--"
+  " ".intercalate (
+    (if inView view "docs" then ["docs=" ++ joinOr docs] else []) ++
+    (if inView view "topics" then ["topics=" ++ joinOr topics] else []) ++
+    (if inView view "byhash" then ["byhash=" ++ joinOr bh] else []) ++
+    (if inView view "byns" then ["byns=" ++ joinOr bn] else []) ++
+    (if inView view "missing" then ["missing=" ++ joinOr missing] else []) ++
+    (if inView view "providers" then ["providers=" ++ joinOr prov] else []) ++
+    (if inView view "slots" then ["slots=" ++ joinOr slots] else []))
+
+end LiveTok
+
+/-- the live actor (`Model/Live.lean`) -/
+def stepLive (w : World) : List String → Option (World × String)
+  | ["lnew", sid, maxmsg, smaller, view] => do
+    let sid ← parseNat? sid
+    let st : Live.LState := { maxMessageSize := ← parseNat? maxmsg, smallerPeers := ← LiveTok.parseBytesList? smaller }
+    pure ({ w with lives := (sid, st) :: w.lives.filter (·.1 != sid),
+                   liveRegs := w.liveRegs.filter (·.1.1 != sid),
+                   liveViews := (sid, view) :: w.liveViews.filter (·.1 != sid) }, "ok")
+  | "lstep" :: sid :: rest => do
+    let sid ← parseNat? sid
+    let i ← LiveTok.parseIn? rest
+    match w.lives.lookup sid with
+    | none => pure (w, "no-store")
+    | some s =>
+      let (s', outs) := Live.step s i
+      -- `register_useful_peer` reaches the store: the bounded MRU list of C17
+      let regs := outs.foldl (fun (regs : List ((Nat × Bytes) × List Bytes)) o => match o with
+        | .register ns p =>
+          let cur := (regs.lookup (sid, ns)).getD []
+          ((sid, ns), Tables.mruStep cur p) :: regs.filter (·.1 != (sid, ns))
+        | _ => regs) w.liveRegs
+      pure ({ w with lives := (sid, s') :: w.lives.filter (·.1 != sid), liveRegs := regs }, LiveTok.showOuts ((w.liveViews.lookup sid).getD "all") outs)
+  | "lstate" :: sid :: watch => do
+    let sid ← parseNat? sid
+    let watch ← watch.mapM fun t => match t.splitOn ":" with
+      | [ns, p] => do pure (← Bytes.ofHex ns, ← Bytes.ofHex p)
+      | _ => none
+    match w.lives.lookup sid with
+    | none => pure (w, "no-store")
+    | some s => pure (w, LiveTok.showState ((w.liveViews.lookup sid).getD "all") s watch)
+  | ["lpeers", sid, ns] => do
+    let sid ← parseNat? sid
+    let ns ← Bytes.ofHex ns
+    pure (w, if LiveTok.inView ((w.liveViews.lookup sid).getD "all") "peers"
+      then "peers " ++ LiveTok.joinOr (((w.liveRegs.lookup (sid, ns)).getD []).map (·.toHex)) else "peers")
+  | _ => none
+
 /-- requests to a node, and the specification lines about it. The bookkeeping for the
 specification follows the acknowledged requests only, never the model's state. -/
 def stepNode (w : World) : List String → Option (World × String)
@@ -603,6 +750,9 @@ def stepNode (w : World) : List String → Option (World × String)
 def step (w : World) (line : String) : World × String :=
   let toks := (line.trimAscii.toString.splitOn " ").filter (· ≠ "")
   match stepNode w toks with
+  | some r => r
+  | none =>
+  match stepLive w toks with
   | some r => r
   | none =>
   match toks with
